@@ -167,7 +167,27 @@ func (x *Exec) regionClean(region string) bool {
 }
 
 func (x *Exec) heapSet(st *State, region string, t Term) {
-	st.Heap[region] = x.C.Name("h_"+region, t)
+	named := x.C.Name("h_"+region, t)
+	if strings.HasPrefix(t.S, "(store ") && named.S != t.S {
+		// remember what the named heap is a store of: a later load at the same reference reads the stored value
+		if parts := splitArgs(t.S); len(parts) == 4 {
+			if x.storeDefs == nil {
+				x.storeDefs = map[string][3]string{}
+			}
+			x.storeDefs[named.S] = [3]string{parts[1], parts[2], parts[3]}
+		}
+	}
+	st.Heap[region] = named
+}
+
+// selectObj: Select(h, ref), looking through the named stores h was built from when the reference is syntactically the
+// stored one (constant propagation through locals: a struct written and read back in the same function).
+func (x *Exec) selectObj(h, ref Term) Term {
+	if d, ok := x.storeDefs[h.S]; ok && d[1] == ref.S {
+		_, e := h.Sort.ArrayParts()
+		return atomTerm(d[2], e)
+	}
+	return Select(h, ref)
 }
 
 // PtrFromTerm builds a PtrV from a Ref term of pointer type pt.
@@ -290,6 +310,16 @@ func (x *Exec) Load(st *State, p PtrV) (Val, error) {
 		arr := Select(h, p.Base)
 		if init, ok := x.roInit[p.Base.S]; ok && p.Base.isConst && init.Sort == arr.Sort {
 			arr = init
+			if elems, ok := x.roElems[p.Base.S]; ok && len(p.Path) > 0 && !p.Path[0].IsField {
+				if c, isConst := p.Path[0].Index.Const(); isConst {
+					et, found := elems[c.Int64()]
+					if !found {
+						et = x.C.Zero(p.RootT)
+					}
+					et, _ = x.readPath(et, p.RootT, p.Path[1:])
+					return x.fromLoaded(st, et, elemT), nil
+				}
+			}
 		}
 		if len(p.Path) == 0 {
 			// whole array
@@ -307,9 +337,21 @@ func (x *Exec) Load(st *State, p PtrV) (Val, error) {
 	var t Term
 	if init, ok := x.roInit[p.Base.S]; ok && p.Base.isConst {
 		t = init
+		if elems, ok := x.roElems[p.Base.S]; ok && len(p.Path) > 0 && !p.Path[0].IsField {
+			if c, isConst := p.Path[0].Index.Const(); isConst {
+				if at, ok := p.RootT.Underlying().(*types.Array); ok {
+					et, found := elems[c.Int64()]
+					if !found {
+						et = x.C.Zero(at.Elem())
+					}
+					et, _ = x.readPath(et, at.Elem(), p.Path[1:])
+					return x.fromLoaded(st, et, elemT), nil
+				}
+			}
+		}
 	} else {
 		h := x.heapGet(st, p.Region, hs)
-		t = Select(h, p.Base)
+		t = x.selectObj(h, p.Base)
 	}
 	t, _ = x.readPath(t, p.RootT, p.Path)
 	return x.fromLoaded(st, x.C.Name("ld", t), elemT), nil
@@ -368,7 +410,7 @@ func (x *Exec) Store(st *State, p PtrV, v Val) error {
 	}
 	_, hs := x.regionForElem(p.RootT)
 	h := x.heapGet(st, p.Region, hs)
-	obj := Select(h, p.Base)
+	obj := x.selectObj(h, p.Base)
 	nobj := x.writePath(obj, p.RootT, p.Path, vt)
 	x.noteWrite(p.Base, p.Region)
 	x.heapSet(st, p.Region, Store(h, p.Base, nobj))
